@@ -455,6 +455,15 @@ func (g *gen) rewritePkgRefs(info *types.Info, node ast.Node) ast.Node {
 		}
 		return false
 	}
+	// Identifiers already present in the declaration. A new name must not be
+	// one of them: it would capture, or be captured by, an existing local.
+	usedNames := make(map[string]bool)
+	ast.Inspect(node, func(n ast.Node) bool {
+		if id, ok := n.(*ast.Ident); ok {
+			usedNames[id.Name] = true
+		}
+		return true
+	})
 	var scopeStack []*types.Scope
 	pkgScope := g.pkg.Types.Scope()
 	node = astutil.Apply(node, func(c *astutil.Cursor) bool {
@@ -488,6 +497,9 @@ func (g *gen) rewritePkgRefs(info *types.Info, node ast.Node) ast.Node {
 			return true
 		}
 		newName := disambiguate(objName, func(n string) bool {
+			if usedNames[n] {
+				return true
+			}
 			if g.nameInFileScope(n) || inNewNames(n) {
 				return true
 			}
